@@ -107,6 +107,13 @@ pub struct Collection {
     /// spurious `Precondition`. Flush needs no part in this: it holds the
     /// exclusive gate.
     extension_write_gate: tokio::sync::Mutex<()>,
+    /// Names of the indexes the durable collection metadata may name: those
+    /// registered by the last checkpoint (or loaded on open), whose objects
+    /// were persisted before it. The writers of the metadata object outside
+    /// the checkpoint (`store_metadata_unclaimed`) publish only these: an
+    /// index created in this handle whose postings exist only in memory must
+    /// not become durably registered before its objects are.
+    durable_index_registry: RwLock<BTreeSet<String>>,
     /// Monotonic path component for mutation-intent objects.
     next_mutation_sequence: AtomicU64,
     /// Highest durably published allocation watermark. `add` guarantees
@@ -733,6 +740,7 @@ impl Collection {
             pending_mutations: parking_lot::Mutex::new(BTreeMap::new()),
             stale_mutation_intents: parking_lot::Mutex::new(BTreeSet::new()),
             extension_write_gate: tokio::sync::Mutex::new(()),
+            durable_index_registry: RwLock::new(BTreeSet::new()),
             next_mutation_sequence: AtomicU64::new(unix_ms()),
             durable_alloc_watermark: AtomicU64::new(0),
             watermark_gate: tokio::sync::Mutex::new(()),
@@ -803,6 +811,7 @@ impl Collection {
             tokenizer: default_tokenizer(),
             doc_ids_index: RwLock::new(doc_ids_index),
             doc_ids: RwLock::new(doc_ids),
+            durable_index_registry: RwLock::new(Self::index_registry_of(&metadata)),
             metadata: RwLock::new(metadata),
             read_only: AtomicBool::new(false),
             database_read_only: db.read_only_flag(),
@@ -1843,6 +1852,27 @@ impl Collection {
         Ok(())
     }
 
+    /// The index names a metadata snapshot registers, one namespace per family.
+    fn index_registry_of(metadata: &CollectionMetadata) -> BTreeSet<String> {
+        metadata
+            .btree_indexes
+            .keys()
+            .map(|name| format!("btree:{name}"))
+            .chain(
+                metadata
+                    .bm25_indexes
+                    .keys()
+                    .map(|name| format!("bm25:{name}")),
+            )
+            .chain(
+                metadata
+                    .hnsw_indexes
+                    .keys()
+                    .map(|name| format!("hnsw:{name}")),
+            )
+            .collect()
+    }
+
     /// Stores collection metadata to storage if it has changed.
     ///
     /// A single conditional PUT against the last observed object version is
@@ -1893,6 +1923,8 @@ impl Collection {
             .await?;
 
         *self.metadata_version.write() = version;
+        // Checkpoint order: the indexes were persisted before this object.
+        *self.durable_index_registry.write() = Self::index_registry_of(&metadata);
         self.last_saved_version
             .fetch_max(metadata.stats.version, Ordering::Release);
         self.update_metadata(|m| {
@@ -1916,6 +1948,21 @@ impl Collection {
         let _gate = self.extension_write_gate.lock().await;
         self.ensure_mutable()?;
         let mut metadata = self.metadata();
+        // Outside the checkpoint nothing was flushed first: name only the
+        // indexes whose objects are known to be persisted (the removal of an
+        // index still takes effect — it is no longer in the live registry).
+        {
+            let durable = self.durable_index_registry.read();
+            metadata
+                .btree_indexes
+                .retain(|name, _| durable.contains(&format!("btree:{name}")));
+            metadata
+                .bm25_indexes
+                .retain(|name, _| durable.contains(&format!("bm25:{name}")));
+            metadata
+                .hnsw_indexes
+                .retain(|name, _| durable.contains(&format!("hnsw:{name}")));
+        }
         // See `store_metadata`: the read-only flag is live handle state and is
         // never persisted.
         metadata.stats.read_only = false;
